@@ -442,10 +442,10 @@ fn pow(b: u64, e: usize) -> u64 {
 pub fn run(prop: P, ctx: &RunCtx) {
     let name = prop.id();
     match prop {
-        P::C01 => ctx.set_rule("inputs: exhaustive token sequences over alphabet A (121 spellings: every non-trivia token kind + 26 joint composite operators) up to the stated length, exhaustive short strings over three 14-character alphabets, random token soup (<=64 tokens), random G-chars text, mutated repository snippets, long repetitions (linear-work bound), deep-nesting probes. non-trivial = >=1 non-trivia token and (>=1 syntax diagnostic or >=2 nodes below the root); distinct by non-trivia token-kind sequence"),
+        P::C01 => ctx.set_rule("inputs: exhaustive token sequences over alphabet A (121 spellings: every non-trivia token kind + 26 joint composite operators) up to the stated length, exhaustive short strings over four 14-character alphabets, random token soup (<=64 tokens), random G-chars text, quoted literals built from valid/malformed/truncated escape sequences and multi-byte characters, mutated repository snippets, long repetitions (linear-work bound), deep-nesting probes. non-trivial = >=1 non-trivia token and (>=1 syntax diagnostic or >=2 nodes below the root); distinct by non-trivia token-kind sequence"),
         P::C02 => ctx.set_rule("same inputs as C01; non-trivial = (>=1 trivia token and >=2 non-trivia tokens) or >=1 syntax error or >=1 glued composite operator; distinct by input hash"),
         P::C12 => ctx.set_rule("syntax side: same inputs as C01; semantic side: generated programs with injected semantic faults and non-ASCII identifiers; non-trivial = >=1 diagnostic; distinct by input hash"),
-        P::C14 => ctx.set_rule("inputs: all strings of length <= L over three 14-character alphabets of lexically critical characters (exhaustive), random G-chars text, token soup, mutated snippets; non-trivial = contains a multi-byte char, NUL, quote, #, $, @, / or digit followed by a letter; distinct by input"),
+        P::C14 => ctx.set_rule("inputs: all strings of length <= L over four 14-character alphabets of lexically critical characters (exhaustive), random G-chars text, token soup, mutated snippets; non-trivial = contains a multi-byte char, NUL, quote, #, $, @, / or digit followed by a letter; distinct by input"),
     }
     ctx.assume("std::str and rowan are trusted; the hook event/look-ahead budget separates 'stuck' from 'slow'; a watchdog timeout is inconclusive, never a violation");
 
@@ -483,7 +483,7 @@ pub fn run(prop: P, ctx: &RunCtx) {
         ctx.mark_exhaustive(format!("all token sequences of length <= {max_len} over alphabet A ({} spellings)", a));
     }
 
-    // (2) exhaustive short strings over the three 14-character alphabets
+    // (2) exhaustive short strings over the four 14-character alphabets
     {
         let max_len = match prop {
             P::C14 => ctx.pick(6usize, 7usize),
@@ -507,7 +507,7 @@ pub fn run(prop: P, ctx: &RunCtx) {
                 });
             }
         }
-        ctx.mark_exhaustive(format!("all strings of length <= {max_len} over each of the 3 fourteen-character alphabets"));
+        ctx.mark_exhaustive(format!("all strings of length <= {max_len} over each of the 4 fourteen-character alphabets"));
     }
 
     // (3) random token soup
@@ -520,6 +520,7 @@ pub fn run(prop: P, ctx: &RunCtx) {
         }
         let mut text = String::new();
         join_tokens(&idx, &mut text);
+        let text = decorate(src, text);
         text_case(prop, &text, "soup", true)
     });
 
@@ -527,7 +528,16 @@ pub fn run(prop: P, ctx: &RunCtx) {
     let n_chars = ctx.pick(200_000u64, 20_000_000u64);
     ctx.random("chars", n_chars, 200, |src| {
         let text = gen_chars(src, 96);
+        let text = decorate(src, text);
         text_case(prop, &text, "chars", true)
+    });
+
+    // (4b) quoted literals full of escape sequences and multi-byte characters
+    let n_esc = ctx.pick(200_000u64, 10_000_000u64);
+    ctx.random("escape-strings", n_esc, 60, |src| {
+        let text = gen_escape_text(src);
+        let text = decorate(src, text);
+        text_case(prop, &text, "escape-strings", true)
     });
 
     // (5) mutated snippets
@@ -539,6 +549,7 @@ pub fn run(prop: P, ctx: &RunCtx) {
         ctx.random("mutants", n_mut, 24, |src| {
             let s = &snippets[src.below(snippets.len())];
             let text = mutate(src, s);
+            let text = decorate(src, text);
             text_case(prop, &text, "snippet-mutant", true)
         });
         // every prefix of every snippet (truncation at every char boundary)
